@@ -189,7 +189,7 @@ Section StpLoops.
                else
                  let copied := odmax - Z.of_nat rem' in
                  if (if use_slen then (0 <? sl - 1) else true) && negb (srcbos =? BOS_UNKNOWN) && (srcbos <=? copied)
-                 then Handler HStr ESUNTERM (stp_fail errp ESUNTERM)
+                 then handle_error c 1 od odmax ESUNTERM ;;; stp_fail errp ESUNTERM     (* after the fix: cleared like the other failing exits *)
                  else stp_loop rem' (d + 1) (s + 1) (sl - 1)))
     end.
 End StpLoops.
@@ -225,7 +225,7 @@ Definition stpncpy_s (c : cfg) (d dmax s slen errp destbos srcbos : Z) : prog Z 
       if s =? 0 then handle_error c 1 d dmax ESNULLP ;;; stp_fail errp ESNULLP
       else if rmax_str c <? slen then
         (len <- strnlen_s_prog c d dmax BOS_UNKNOWN ;; handle_error c 1 d len ESLEMAX ;;; stp_fail errp ESLEMAX)
-      else if negb (srcbos =? BOS_UNKNOWN) && (srcbos <? slen) then (r <- bos_overflow c d destbos ;; stp_fail errp r)
+      else if negb (srcbos =? BOS_UNKNOWN) && (srcbos <? slen) then (r <- bos_overflow c d (if destbos =? BOS_UNKNOWN then dmax else destbos) ;; stp_fail errp r)
       else if d =? s then stp_walk c d dmax errp (Z.to_nat dmax) d
       else if d <? s then stp_loop c true d dmax s errp srcbos true true (Z.to_nat dmax) d s slen
       else stp_loop c false d dmax d errp srcbos true true (Z.to_nat dmax) d s slen in
